@@ -27,9 +27,13 @@ fn all_allowing(p: &mut NetflowParser) {
 /// six prior histories, delivered UNDER the configuration being judged (each of their calls is judged like the main
 /// one): the four of the shared menu, and two that contain allowed-or-not unparsable versions and garbage
 const NPRIOR: u64 = 6;
+const NLATE: u64 = 3;
 fn prior_calls(k: usize) -> Vec<Vec<u8>> {
     match k {
         0..=3 => menu::prior_state(k),
+        // 6..=8: the histories 1..=3 delivered BEFORE the configuration is set (the set is narrowed on a parser whose
+        // caches already hold templates of versions the new set may not allow)
+        6..=8 => menu::prior_state(k - 5),
         4 => vec![menu::packet(menu::VERSION_6, 60), menu::packet(3, 61)],
         _ => vec![menu::packet(menu::GARBAGE, 62), menu::packet(7, 63), menu::packet(menu::VERSION_0, 64), menu::packet(menu::VERSION_6, 65)],
     }
@@ -41,15 +45,26 @@ pub fn judge(seq: &[usize], prior: usize, ak: usize, all_set: &std::collections:
     let s_set: std::collections::HashSet<u16> = s.iter().cloned().collect();
     // calls: the prior history, the buffer, and the buffer once more (the filter has no memory: what a call reports
     // and learns depends on the caches and the configured set alone)
-    let mut calls = prior_calls(prior);
+    let late = prior >= 6;
+    let mut calls = if late { vec![] } else { prior_calls(prior) };
     let nprior = calls.len();
     calls.push(buf.clone());
     calls.push(buf.clone());
     // subject: configured once, before anything is parsed
     let mut ps = NetflowParser::default();
+    if late {
+        for c in prior_calls(prior) {
+            ps.parse_bytes(&c);
+        }
+    }
     ps.allowed_versions = s_set.clone();
     // state reference: an all-allowing parser that is fed, call by call, only the bytes the subject may look at
     let mut pp = NetflowParser::default();
+    if late {
+        for c in prior_calls(prior) {
+            pp.parse_bytes(&c);
+        }
+    }
     pp.allowed_versions = all_set.clone();
     let mut pall = NetflowParser::default();
     pall.allowed_versions = all_set.clone();
@@ -134,20 +149,42 @@ pub fn spaces(tier: &str) -> Vec<Box<dyn Space>> {
     let a2 = all_set.clone();
     let radices = [nl, NPRIOR, menu::NALLOWED];
     let _ = all_allowing;
-    vec![space(
-        &format!("buffers<={}-packets-over-26-packet-menu x 6 prior histories x 64 allowed sets, each call judged, buffer delivered twice", maxlen),
-        product(&radices),
-        move |i| {
-            let d = digits(i, &radices);
-            let seq: Vec<usize> = list_at(nm, maxlen, d[0]).into_iter().map(|k| MENU[k]).collect();
-            judge(&seq, d[1] as usize, d[2] as usize, &a2)
-        },
-        move |i| {
-            let d = digits(i, &radices);
-            let seq: Vec<usize> = list_at(nm, maxlen, d[0]).into_iter().map(|k| MENU[k]).collect();
-            json!({"buffer": seq.iter().map(|k| menu::NAMES[*k]).collect::<Vec<_>>(), "buffer_hex": hex(&menu::chain(&seq)), "prior_calls": prior_calls(d[1] as usize).iter().map(|c| hex(c)).collect::<Vec<_>>(), "allowed_versions": menu::allowed_set(d[2] as usize)})
-        },
-    )]
+    let a3 = all_set.clone();
+    let latelen = maxlen - 1;
+    let nl2 = list_count(nm, latelen);
+    let radices2 = [nl2, NLATE, menu::NALLOWED];
+    vec![
+        space(
+            &format!("buffers<={}-packets-over-26-packet-menu x 6 prior histories under the configuration x 64 allowed sets, each call judged, buffer delivered twice", maxlen),
+            product(&radices),
+            move |i| {
+                let d = digits(i, &radices);
+                let seq: Vec<usize> = list_at(nm, maxlen, d[0]).into_iter().map(|k| MENU[k]).collect();
+                judge(&seq, d[1] as usize, d[2] as usize, &a2)
+            },
+            move |i| {
+                let d = digits(i, &radices);
+                let seq: Vec<usize> = list_at(nm, maxlen, d[0]).into_iter().map(|k| MENU[k]).collect();
+                json!({"buffer": seq.iter().map(|k| menu::NAMES[*k]).collect::<Vec<_>>(), "buffer_hex": hex(&menu::chain(&seq)), "prior_calls": prior_calls(d[1] as usize).iter().map(|c| hex(c)).collect::<Vec<_>>(), "configuration_set": "before the prior calls", "allowed_versions": menu::allowed_set(d[2] as usize)})
+            },
+        ),
+        space(
+            &format!("buffers<={}-packets x 3 prior histories delivered BEFORE the configuration is set (narrowing over non-empty caches) x 64 allowed sets", latelen),
+            product(&radices2),
+            move |i| {
+                let d = digits(i, &radices2);
+                let seq: Vec<usize> = list_at(nm, latelen, d[0]).into_iter().map(|k| MENU[k]).collect();
+                let mut e = judge(&seq, 6 + d[1] as usize, d[2] as usize, &a3);
+                e.tags.push("configuration-narrowed-over-non-empty-caches");
+                e
+            },
+            move |i| {
+                let d = digits(i, &radices2);
+                let seq: Vec<usize> = list_at(nm, latelen, d[0]).into_iter().map(|k| MENU[k]).collect();
+                json!({"buffer": seq.iter().map(|k| menu::NAMES[*k]).collect::<Vec<_>>(), "buffer_hex": hex(&menu::chain(&seq)), "prior_calls": prior_calls(6 + d[1] as usize).iter().map(|c| hex(c)).collect::<Vec<_>>(), "configuration_set": "after the prior calls", "allowed_versions": menu::allowed_set(d[2] as usize)})
+            },
+        ),
+    ]
 }
 
 pub fn run(tier: &str) -> i32 {
@@ -156,11 +193,11 @@ pub fn run(tier: &str) -> i32 {
         prop: "C12".into(),
         tier: tier.into(),
         level: "model_checking",
-        rule: "every buffer = sequence of 1..=3 (thorough 4) packets over a 26-packet menu (17 self-delimiting packets, version-6, version-0, V9 truncated inside a template, V9 data for an absent id, five well-formed packets whose version field is 0x0109 / 0x0105 / 0x010a / 0x0107 / 0x0900) x 6 prior histories (delivered under the configuration; two contain unparsable versions and garbage) x all 64 allowed sets (16 subsets of {5,7,9,10} x extras {none,{6},{0,11,65535}, 24 aliasing numbers}), the buffer delivered twice; EVERY call of the history is judged; oracle relative to a parser allowing all 65 536 versions from the same state: result(S) = maximal prefix of result(ALL) whose elements' versions are in S, caches(S) = caches of an ALL-parser fed only that prefix's bytes, unknown allowed versions are UnknownVersion errors, and allowed_versions itself is unchanged by every call. Distinct by hash of (result, allowed set)".into(),
-        bounds: json!({"buffer_len": if thorough {4} else {3}, "prior_histories": 6, "calls_judged_per_case": "2..=6", "allowed_sets": 64}),
+        rule: "every buffer = sequence of 1..=3 (thorough 4) packets over a 26-packet menu (17 self-delimiting packets, version-6, version-0, V9 truncated inside a template, V9 data for an absent id, five well-formed packets whose version field is 0x0109 / 0x0105 / 0x010a / 0x0107 / 0x0900) x 9 prior histories (six delivered under the configuration, two of them with unparsable versions and garbage; three delivered before the configuration is set, so that the set is narrowed over caches that already hold templates - these with buffers one packet shorter) x all 64 allowed sets (16 subsets of {5,7,9,10} x extras {none,{6},{0,11,65535}, 24 aliasing numbers}), the buffer delivered twice; EVERY call of the history is judged; oracle relative to a parser allowing all 65 536 versions from the same state: result(S) = maximal prefix of result(ALL) whose elements' versions are in S, caches(S) = caches of an ALL-parser fed only that prefix's bytes, unknown allowed versions are UnknownVersion errors, and allowed_versions itself is unchanged by every call. Distinct by hash of (result, allowed set)".into(),
+        bounds: json!({"buffer_len": if thorough {4} else {3}, "prior_histories": 9, "calls_judged_per_case": "2..=6", "allowed_sets": 64}),
         assumptions: vec![],
         trusted_base: vec!["c12::judge".into()],
-        required_tags: vec!["filter-cuts-in-the-middle", "unknown-version-error", "unknown-version-error-in-an-earlier-call"],
+        required_tags: vec!["filter-cuts-in-the-middle", "unknown-version-error", "unknown-version-error-in-an-earlier-call", "configuration-narrowed-over-non-empty-caches"],
         extra: Default::default(),
     };
     run_report(rep, spaces(tier))
